@@ -594,7 +594,10 @@ contract(F, 'Table.copy', tier='A', props=['C07', 'C06'],
              "isnone(result._sample_metadata) or same_seq(result._sample_metadata, self._sample_metadata)",
              "isnone(result._observation_metadata) or same_seq(result._observation_metadata, self._observation_metadata)",
              "implies(isnone(self._sample_metadata), isnone(result._sample_metadata))",
-             "implies(isnone(self._observation_metadata), isnone(result._observation_metadata))"],
+             "implies(isnone(self._observation_metadata), isnone(result._observation_metadata))",
+             # ... and it is dropped only then
+             "implies(isnone(result._sample_metadata) and not isnone(self._sample_metadata), all_empty(self._sample_metadata))",
+             "implies(isnone(result._observation_metadata) and not isnone(self._observation_metadata), all_empty(self._observation_metadata))"],
     modifies=[])
 
 
@@ -920,6 +923,9 @@ contract(F, 'Table.transpose', tier='A', props=['C06', 'C07'],
         "and (isnone(result._sample_metadata) or same_seq(result._sample_metadata, self._observation_metadata))",
         "implies(isnone(self._sample_metadata), isnone(result._observation_metadata)) "
         "and implies(isnone(self._observation_metadata), isnone(result._sample_metadata))",
+        # ... and it is dropped only then
+        "implies(isnone(result._observation_metadata) and not isnone(self._sample_metadata), all_empty(self._sample_metadata))",
+        "implies(isnone(result._sample_metadata) and not isnone(self._observation_metadata), all_empty(self._observation_metadata))",
         "result._data.shape[0] == self._data.shape[1] and result._data.shape[1] == self._data.shape[0]",
         "all(cell(result._data, j, i) == cell(self._data, i, j) for i in range(self._data.shape[0]) for j in range(self._data.shape[1]))",
         "samecells(self._data, old(self._data.cell))",
@@ -954,6 +960,13 @@ contract(F, 'Table.sort_order', tier='A', props=['C06', 'C07'],
         "implies(axis == 'observation' and not isnone(result._observation_metadata), not isnone(self._observation_metadata) and "
         "        all(result._observation_metadata[k] == self._observation_metadata[self._obs_index[order[k]]] for k in range(len(order))))",
         "implies(axis == 'sample' and isnone(self._sample_metadata), isnone(result._sample_metadata))",
+        # metadata is dropped only when no entry (of the ids asked for) holds anything
+        "implies(axis == 'sample' and isnone(result._sample_metadata) and not isnone(self._sample_metadata), "
+        "        all(entry_empty(self._sample_metadata[self._sample_index[order[k]]]) for k in range(len(order))))",
+        "implies(axis == 'observation' and isnone(result._observation_metadata) and not isnone(self._observation_metadata), "
+        "        all(entry_empty(self._observation_metadata[self._obs_index[order[k]]]) for k in range(len(order))))",
+        "implies(axis == 'sample' and isnone(result._observation_metadata) and not isnone(self._observation_metadata), all_empty(self._observation_metadata))",
+        "implies(axis == 'observation' and isnone(result._sample_metadata) and not isnone(self._sample_metadata), all_empty(self._sample_metadata))",
         "all(order[k] in %s for k in range(len(order)))" % IDX,
     ],
     raises={'UnknownAxisError': ["not (%s)" % AX],
@@ -1333,6 +1346,8 @@ contract(F, 'Table.update_ids', tier='A', props=['C06', 'C07'],
         "and (isnone(result._observation_metadata) or same_seq(result._observation_metadata, old(self._observation_metadata)))",
         "implies(inplace, same_seq(result._sample_metadata, old(self._sample_metadata)) "
         "        and same_seq(result._observation_metadata, old(self._observation_metadata)))",
+        "implies(isnone(result._sample_metadata) and not isnone(old(self._sample_metadata)), all_empty(old(self._sample_metadata)))",
+        "implies(isnone(result._observation_metadata) and not isnone(old(self._observation_metadata)), all_empty(old(self._observation_metadata)))",
         "samecells(result._data, old(self._data.cell)) and result._data.shape == old(self._data.shape)",
         "implies(inplace, result._data is oldref(self._data))",
         "implies(not inplace, %s)" % _UNCHANGED,
@@ -1486,7 +1501,19 @@ def _tw_spec_md(self, eng, st, n, e, bound):
         a = a.val if a.kind == 'opt' else a
         d = eng.as_dict(st, a)
         if d is None or not d[5]:
-            return VBool(fresh('all_empty', B))       # opaque entries: unknown
+            arr = eng.as_arr(st, a)
+            if arr is not None and arr[0] == 'val':
+                # opaque entries: each is None or an empty dict (the constructor's test)
+                q = fresh('q', I)
+                V = self.Val
+                isd = z3.Function('val_is_dict', V, B)
+                return VBool(z3.ForAll([q], z3.Implies(z3.And(0 <= q, q < arr[2]),
+                                                       z3.Or(V.is_vnone(arr[1][q]),
+                                                             z3.And(isd(arr[1][q]), z3.Not(self.val_truth(arr[1][q]))))),
+                                       patterns=[arr[1][q]]))
+            if a.kind == 'none':
+                return VBool(z3.BoolVal(True))
+            return VBool(fresh('all_empty', B))       # anything else: unknown
         p, k = fresh('p', I), fresh('k', Str)
         return VBool(z3.ForAll([p, k], z3.Implies(z3.And(0 <= p, p < eng.length(st, a).term), z3.Not(d[4][p][k])),
                                patterns=[d[4][p][k]]))
@@ -1754,6 +1781,8 @@ TableWorld.spec_call = _tw_spec_vec
 
 def _tw_globals_vec(self, eng, st, c):
     out = _prev_globals_vec(self, eng, st, c)
+    if c.qualname not in ('Table.nonzero_counts',):
+        return out          # prefix sums of the per-column counts: only where they are spoken about
     a, m, n, j = fresh('a', CELL), fresh('m', I), fresh('n', I), fresh('j', I)
     st.assume(z3.ForAll([a, m], colnz_pre(a, m, 0) == 0, patterns=[colnz_pre(a, m, 0)]),
               z3.ForAll([a, m, j], z3.Implies(j >= 0, colnz_pre(a, m, j + 1) == colnz_pre(a, m, j) + colnz(a, m, j)),
@@ -1813,6 +1842,8 @@ colmax_pre = z3.Function('colmax_pre', CELL, I, I, I, R)
 
 def _tw_globals_ext(self, eng, st, c):
     out = _prev_globals_ext(self, eng, st, c)
+    if c.qualname not in ('Table.min', 'Table.max'):
+        return out          # definitional axioms of the running minimum / maximum: only where they are spoken about
     a, m, n, j = fresh('a', CELL), fresh('m', I), fresh('n', I), fresh('j', I)
     one = z3.IntVal(1)
     inf = z3.Real('np_inf')
